@@ -531,4 +531,88 @@ func runC07(c *run.Ctx) {
 		}
 	}
 	c.Set("responses_checked", responses)
+	c07UnionNoMember(c)
+}
+
+// ---------------------------------------------------------------- a value under a union that is no member
+
+type c07URoot struct{ Query *c07UQuery }
+type c07UQuery struct {
+	A    int
+	U    interface{}
+	Us   []interface{}
+	Aa   *c07UAa
+	Deep *c07UQuery
+}
+type c07UAa struct{ X int }
+type c07UStranger struct{ X int }
+
+// c07UnionNoMember: the schema sits far down in its own document (line 13 and below); the requests are one to four lines
+// long. A Go value that is no member of the union makes ggql report an error: like every error of a response it has to be
+// located in the REQUEST.
+func c07UnionNoMember(c *run.Ctx) {
+	sdl := "\n\n\n\n\ntype Query { a: Int u: U us: [U] aa: Aa deep: Query }\n\n\n\n\n\n\n                     type Aa { x: Int }\n   type Bb { x: Int }\nunion U = Aa | Bb\n"
+	open := c.Open("K-C07-union-member-location")
+	reqs := []string{
+		"{ u { ... on Aa { x } } }",
+		"{ a\n  u { __typename } }",
+		"{\n deep {\n  us { ... on Bb { x } }\n }\n}",
+		"query Q { deep { deep { u { ... on Aa { x } } a } } }",
+		"{ aa { x } us { __typename } }",
+	}
+	for ri, text := range reqs {
+		for variant := 0; variant < 2; variant++ {
+			q := &c07UQuery{A: 1, U: &c07UStranger{X: 1}, Us: []interface{}{&c07UStranger{X: 2}, &c07UAa{X: 3}}, Aa: &c07UAa{X: 4}}
+			q.Deep = q
+			root := ggql.NewRoot(&c07URoot{Query: q})
+			if err := root.ParseString(sdl); err != nil {
+				c.Violation("c07-schema-rejected", map[string]interface{}{"error": err.Error()})
+				return
+			}
+			if variant == 1 {
+				_ = root.ResolveString("{ aa { x } }", "", nil) // Aa already bound to its Go type
+			}
+			var resp map[string]interface{}
+			pv, _ := run.Protect(func() { resp = root.ResolveString(text, "", nil) })
+			c.Eval(fmt.Sprintf("union-no-member|%d|%d", ri, variant), true)
+			c.Bucket("variant", "value-that-is-no-member-of-the-union")
+			if pv != nil {
+				c.Count("panics_left_to_C03", 1)
+				continue
+			}
+			c.Count("error_entries_checked", 1)
+			diag, _ := envelopeCheck(resp, text, nil, false, false)
+			if diag == "" {
+				if d := jsonRoundTrip(resp); d != "" {
+					c.Violation("c07-json", map[string]interface{}{"document": text, "diag": d})
+				}
+				continue
+			}
+			// the open finding: the error is the one metaCheck makes, located where the MEMBER TYPE is defined in the schema document
+			explained := false
+			if open {
+				el, _ := resp["errors"].([]interface{})
+				explained = len(el) > 0
+				for _, e := range el {
+					em, _ := e.(map[string]interface{})
+					msg, _ := em["message"].(string)
+					ll, _ := em["locations"].([]interface{})
+					if !strings.Contains(msg, "failed to determine union member") || len(ll) != 1 {
+						explained = false
+						continue
+					}
+					lm, _ := ll[0].(map[string]interface{})
+					line, col := fmt.Sprint(lm["line"]), fmt.Sprint(lm["column"])
+					if !((line == "13" && col == "27" && strings.Contains(msg, "member Aa ")) || (line == "14" && col == "9" && strings.Contains(msg, "member Bb "))) {
+						explained = false
+					}
+				}
+			}
+			if explained {
+				c.Known("K-C07-union-member-location", map[string]interface{}{"document": text, "diag": diag})
+				continue
+			}
+			c.Violation("c07-envelope", map[string]interface{}{"variant": "value-that-is-no-member-of-the-union", "sdl": sdl, "document": text, "diag": diag, "response": fmt.Sprintf("%#v", resp)})
+		}
+	}
 }
